@@ -2,9 +2,11 @@
 # Run every registered check (default: quick tier) and summarise exit codes.  Usage: run_all.sh [tier] [seed] [extra args]
 cd "$(dirname "$0")"
 TIER=${1:-quick}; SEED=${2:-0}; shift 2 2>/dev/null
+LOGD=$(mktemp -d /tmp/pvm_runall_XXXXXX)
 for p in C01 C02 C03 C04 C05 C06 C07 C08 C09 C10 C11 C12 C13 C14 C15 C16 C17 C18 C19; do
-  VERIF_SEED=$SEED /venv/bin/python -m pvm.check $p --tier $TIER "$@" > /tmp/pvm_runall_$p.log 2>&1
+  VERIF_SEED=$SEED /venv/bin/python -m pvm.check $p --tier $TIER "$@" > $LOGD/$p.log 2>&1
   rc=$?
-  echo "$p exit=$rc $(tail -1 /tmp/pvm_runall_$p.log | cut -c1-160)"
-  if [ $rc -ne 0 ]; then grep -E "^(VIOLATION|INCONCLUSIVE|  mechanism)" /tmp/pvm_runall_$p.log | head -6 | cut -c1-300; fi
+  echo "$p exit=$rc $(tail -1 $LOGD/$p.log | cut -c1-160)"
+  if [ $rc -ne 0 ]; then grep -E "^(VIOLATION|INCONCLUSIVE|  mechanism)" $LOGD/$p.log | head -6 | cut -c1-400; fi
 done
+rm -rf $LOGD
